@@ -87,8 +87,9 @@ static void body(void) {
     size_t bb = ZSTD_compressBound(blockSize);
 
     size_t consumed = 0, produced = 0; int frameOpen = 0, nflushOK = 0, nendOK = 0, endPending = 0; size_t pendingIn = 0; uint64_t emitHash = 0;
+    size_t frameConsumed = 0; int callsInFrame = 0;
     char hist[400]; size_t ho = 0; hist[0] = 0;
-    int pledgeError = 0;
+    int pledgeError = 0; long long drainTotal = -1;
     for (int step = 0; step < g_depth; step++) {
         /* state caching on the full context image */
         uint64_t key = vx_hash(g_ws, g_wsSize); key = vx_mix(key, consumed); key = vx_mix(key, emitHash); key = vx_mix(key, (uint64_t)(ci * 16 + kind * 4 + g_api) ^ ((uint64_t)(pledge + 7) << 8)); key = vx_mix(key, (uint64_t)(g_depth - step));
@@ -117,8 +118,13 @@ static void body(void) {
             if (dir == 0) r = ZSTD_compressStream(c, &out, &in);
             else { r = ZSTD_compressStream(c, &out, &in); if (!ZSTD_isError(r) && in.pos == in.size) r = (dir == 1) ? ZSTD_flushStream(c, &out) : ZSTD_endStream(c, &out); else if (!ZSTD_isError(r)) r = 1; }
         }
+        /* zstd.h: a first call with ZSTD_e_end overrides the pledge with the size it is given */
+        if (g_pledge && callsInFrame == 0 && dir == 2) pledge = -1;
+        callsInFrame++;
         if (ZSTD_isError(r)) {
-            if (g_pledge && pledge != (long long)n && ZSTD_getErrorCode(r) == ZSTD_error_srcSize_wrong) { pledgeError = 1; break; }
+            /* srcSize_wrong is the specified answer exactly when the frame is ended with a total other than the pledge, or fed beyond it */
+            if (g_pledge && pledge >= 0 && ZSTD_getErrorCode(r) == ZSTD_error_srcSize_wrong
+                && ((dir == 2 && (long long)(frameConsumed + slice) != pledge) || (long long)(frameConsumed + slice) > pledge)) { pledgeError = 1; break; }
             if (ZSTD_getErrorCode(r) == ZSTD_error_dstSize_tooSmall && g_api == 1) { vx_fail("classic streaming call failed with dstSize_tooSmall"); return; }
             vx_fail("streaming call failed: %s", ZSTD_getErrorName(r)); return;
         }
@@ -126,13 +132,13 @@ static void body(void) {
         /* C10(a): consumable input and writable output => progress or completion */
         if ((g_judge & 2) && slice > 0 && cap > 0 && in.pos == 0 && out.pos == 0 && !(dir != 0 && r == 0)) { vx_fail("call given input and output space made no progress"); return; }
         if (out.pos) emitHash = vx_mix(emitHash, vx_hash(g_dst + produced, out.pos));
-        consumed += in.pos; produced += out.pos;
+        consumed += in.pos; produced += out.pos; frameConsumed += in.pos;
         if (in.pos || out.pos) frameOpen = 1;
         endPending = (dir == 2 && r != 0); pendingIn = endPending ? in.size - in.pos : 0;
         if (dir != 0 && r == 0 && in.pos == in.size) {
             /* flush / end reported completion: C10(b) - what was emitted regenerates what was consumed */
             if ((g_judge & (dir == 2 ? 3 : 2)) && check_decodes(g_dst, produced, g_src, consumed, dir == 2, dir == 2 ? "completed end" : "completed flush")) return;
-            if (dir == 2) { nendOK++; frameOpen = 0; if ((g_judge & 4) && g_pledge && pledge != (long long)consumed && pledge >= 0) { vx_fail("frame completed with %zu bytes although %lld were pledged", consumed, pledge); return; } pledge = -1; /* a pledge covers one frame */ }
+            if (dir == 2) { nendOK++; frameOpen = 0; if ((g_judge & 4) && g_pledge && pledge != (long long)frameConsumed && pledge >= 0) { vx_fail("frame completed with %zu bytes although %lld were pledged", frameConsumed, pledge); return; } pledge = -1; /* a pledge covers one frame */ frameConsumed = 0; callsInFrame = 0; }
             else nflushOK++;
         }
         if (dir != 0 && r == 0 && in.pos != in.size && g_api == 0) { vx_fail("flush/end returned 0 with unconsumed input"); return; }
@@ -140,12 +146,14 @@ static void body(void) {
     /* ---- default drain: feed the rest, end with ample room ---- */
     if (!pledgeError) {
         ZSTD_inBuffer in = { g_src + consumed, endPending ? pendingIn : n - consumed, 0 };
+        if (g_pledge && callsInFrame == 0) pledge = -1;
+        long long expectTotal = (long long)(frameConsumed + in.size); drainTotal = expectTotal;
         for (int it = 0; ; it++) {
             ZSTD_outBuffer out = { g_dst + produced, (2u << 20) - produced, 0 };
             size_t r = ZSTD_compressStream2(c, &out, &in, ZSTD_e_end);
             produced += out.pos;
             if (ZSTD_isError(r)) {
-                if (g_pledge && pledge != (long long)n && ZSTD_getErrorCode(r) == ZSTD_error_srcSize_wrong) { pledgeError = 1; break; }
+                if (g_pledge && pledge >= 0 && pledge != expectTotal && ZSTD_getErrorCode(r) == ZSTD_error_srcSize_wrong) { pledgeError = 1; break; }
                 vx_fail("drain failed: %s", ZSTD_getErrorName(r)); return;
             }
             if (r == 0 && endPending && in.pos == in.size) { endPending = 0; consumed += in.pos; in.src = g_src + consumed; in.pos = 0; in.size = n - consumed; if (in.size == 0) break; continue; }   /* pending frame closed: the rest goes into a new frame */
@@ -154,7 +162,7 @@ static void body(void) {
         }
         consumed = n;
     }
-    if ((g_judge & 4) && g_pledge && pledge >= 0 && pledge != (long long)n && !pledgeError && nendOK == 0) { vx_fail("wrong pledged size (%lld for %zu bytes) not reported by the end of the frame", pledge, n); return; }
+    if ((g_judge & 4) && g_pledge && pledge >= 0 && !pledgeError && drainTotal != pledge) { vx_fail("frame completed with %lld bytes although %lld were pledged", drainTotal, pledge); return; }
     if (pledgeError) { vx_obs_u64(0xbad); vx_stat_add("wrong_pledges_refused", 1); return; }
     if ((g_judge & 1) && check_decodes(g_dst, produced, g_src, consumed, 1, "final")) return;
     /* C05 on the streamed frames */
